@@ -650,6 +650,12 @@ def run_spline(r, case):
     p64 = {k: v.double() for k, v in p32.items()}
     fn = splineref.fn(fam, tails)
     B = 3.0
+    if tails and fam == "rq":
+        # tail bounds that are not single-precision numbers (1.2, 0.3, 0.6, 1.1 round outward, 0.7 inward): an input sitting on
+        # float32(B) is inside for float32 and in the tail for float64 - the rational-quadratic spline is C1 there (slope one on
+        # both sides), so both evaluations must exist and agree (the other families have a derivative jump at their junction)
+        B = [3.0, 1.2, 0.3, 1.1, 0.6, 0.7][case["seed"] % 6]
+        r.count("nonrepresentable_tail_bound_cases", int(B != 3.0))
     kw = {"tail_bound": B, "tails": "linear"} if tails else {}
     lo, hi = (-B, B) if tails else (0.0, 1.0)
     x = (lo + (hi - lo) * torch.rand(n, generator=g)).float()
